@@ -252,9 +252,14 @@ def pred_tr(c, stats):
             stats["many_msgs"] += cnt
         elif k == "t":
             stats["tampers"][o[2][0]] = stats["tampers"].get(o[2][0], 0) + 1
-            if o[3] is not None:
-                d.affects = min(d.affects, o[3])
+            # o[3]: first message whose bytes in the pipe now differ from the untampered stream
+            # (None: the pipe is - again - exactly the untampered stream, e.g. garbage appended
+            # and then truncated away); only meaningful while no read has desynchronised the pipe
+            if not d.broken:
+                d.affects = INF if o[3] is None else o[3]
                 d.failed_since_tamper = False
+            elif o[3] is not None:
+                d.affects = min(d.affects, o[3])
     return f
 
 
